@@ -251,7 +251,8 @@ def _flush_contract():
         FLUSH_Q,
         params={"cls": "cls", "gateway": GW, "message": MSG, "message_buffer": BUFT},
         requires=[H("wf/buffer-is-gateways", "message_buffer is gateway._message_buffer"),
-                  H("wf/schema-follows-protocol", "gateway._message_schema.ctx_protocol == gateway._protocol")],
+                  H("wf/schema-follows-protocol", "gateway._message_schema.ctx_protocol == gateway._protocol"),
+                  H("wf/buffer-dicts-distinct", "not (message_buffer.internal_messages is message_buffer.set_messages)")],
         pre_lets={"n": "message.node_id", "SM": "message_buffer.set_messages"},
         witness={"done": (T("set", TKey3), "loop_done()")},
         returns="message",
@@ -427,21 +428,24 @@ class Deriver:
         inner.modifies = list(inner.modifies) + ["message_buffer.internal_messages[key3(message.node_id, message.child_id, 19)]"]
         return inner
 
+    def arm_specs(self, enum, pattern="handle_{}"):
+        """value -> (handler name, unrestricted effect spec) for every type of the active protocol's table."""
+        out = {}
+        for val, member in sorted(self.table(enum).items()):
+            hname = pattern.format(member.name.lower())
+            a, owner = self.cls.lookup(hname)
+            h = unwrap(a)
+            out[val] = (hname, ident(f"{hname}(none)") if h is None else self.spec_of(h).copy())
+        return out
+
     def dispatch_spec(self, enum, pattern, gate_needs_node):
         """handle_internal / handle_stream: gate by the active protocol's table, then the per-type handler."""
         tbl = self.table(enum)
         arms = []
-        for val, member in sorted(tbl.items()):
-            hname = pattern.format(member.name.lower())
-            a, owner = self.cls.lookup(hname)
-            h = unwrap(a)
+        for val, (hname, arm) in self.arm_specs(enum, pattern).items():
             cond = f"t == {val}"
             if gate_needs_node:
                 cond = f"n in R and {cond}"
-            if h is None:
-                arm = ident(f"{hname}(none)")
-            else:
-                arm = self.spec_of(h).copy()
             arms.append(restrict(arm, cond))
         vals = sorted(tbl)
         in_table = " or ".join(f"t == {v}" for v in vals)
